@@ -6,6 +6,7 @@ import (
 	"fmt"
 	"math/big"
 	"reflect"
+	"sidever/internal/pipe"
 	"strings"
 	"sync"
 	"time"
@@ -356,6 +357,65 @@ func minInt(a, b int) int {
 }
 
 // C19: the external DID document and metadata equal Projection!Project for every enumerated case.
+// aliasProjection: a DID resolved through the document handler under a namespace alias - while its create is only in
+// the unpublished-operation store, and after anchoring - is projected with that very DID as document id, controller and
+// prefix of every verification method and service id.
+func aliasProjection(c *ev.Ctx) {
+	for _, unpub := range []bool{true, false} {
+		p, err := pipe.New(unpub, KeyTypeForSeed(c.Seed))
+		if err != nil {
+			ev.Fatal("pipeline: %v", err)
+		}
+		steps := []pipe.Step{{A: "Submit", D: 1, K: "C"}}
+		if err := p.Exec(steps[0], []int{1}); err != nil {
+			ev.Fatal("create: %v", err)
+		}
+		check := func(stage string) {
+			for _, ns := range []string{pipe.NS, pipe.Alias} {
+				did := ns + ":" + p.Suffix(1)
+				rr, rerr := p.Handler().ResolveDocument(did)
+				c.Cov.Evaluations++
+				if rerr != nil {
+					if stage == "unpublished" && !unpub {
+						continue // nothing to resolve yet
+					}
+					c.Violation("projection:alias:resolution-fails:"+stage, map[string]interface{}{"did": did, "error": rerr.Error()})
+					continue
+				}
+				raw, _ := json.Marshal(rr.Document)
+				var doc map[string]interface{}
+				_ = json.Unmarshal(raw, &doc)
+				problems := []string{}
+				if doc["id"] != did {
+					problems = append(problems, fmt.Sprintf("document id %v", doc["id"]))
+				}
+				vms, _ := doc["verificationMethod"].([]interface{})
+				for _, v := range vms {
+					m, _ := v.(map[string]interface{})
+					id, _ := m["id"].(string)
+					if !strings.HasPrefix(id, did+"#") || m["controller"] != did {
+						problems = append(problems, fmt.Sprintf("verification method id %v controller %v", m["id"], m["controller"]))
+					}
+				}
+				if len(vms) == 0 {
+					problems = append(problems, "no verification method")
+				}
+				if len(problems) > 0 {
+					c.Violation("projection:alias:ids-do-not-carry-the-resolved-did:"+stage, map[string]interface{}{"resolved_did": did, "problems": problems, "document": string(raw),
+						"unpublished_store": unpub})
+				}
+			}
+		}
+		check("unpublished")
+		if err := p.Exec(pipe.Step{A: "Flush"}, []int{1}); err != nil {
+			ev.Fatal("flush: %v", err)
+		}
+		p.ObserveMany([]string{"none"})
+		check("published")
+		p.Close()
+	}
+}
+
 func C19(c *ev.Ctx) {
 	var cases []projCase
 	for _, part := range []string{"keys", "keypairs", "services", "metadata"} {
@@ -457,6 +517,7 @@ func C19(c *ev.Ctx) {
 			}
 		}
 	}
+	aliasProjection(c)
 	c.Cov.Rule = "three sub-products enumerated by TLC: (keys) every sequence of <= MaxKeys internal keys over 6 key types x 5 purpose sets x {JWK, base58} x base context x method context; (services) 0-2 services x 0-2 aliases x options; (metadata) options x published x deactivated x commitments x anchor origin (realised as string, list, object, number, empty string, boolean) x version id x updated time; the real DID transformer output (with the real transformation-info helpers of the document handler) is abstracted and compared with Project(c): verification methods (id form, type, controller, material re-encoding checked against an independent base58), the five relationship sections, contexts and their order, service ids and carried-over members, aliases, absence of the internal publicKey member, every metadata field and its value. Non-trivial: >= 1 key."
 	c.Finish("model_checking")
 }
